@@ -43,8 +43,8 @@ theorem C01_frame (m1 m2 : Bytes) (h1 : AllBytes m1) (h2 : AllBytes m2) (pos bl 
 
 /-- **C01, flat composite tier** — `Request.encode` then `Request.decode` at the API level of the model.
     For every request/response/structure whose parameters are (at most 4000) VALUE parameters over `A_INT32`
-    `A_UINT32`, `A_FLOAT64` or `A_BYTEFIELD` standard-length DOPs with the identical compu method — *any* encodings
-    (2C/1C/SM for signed), bit lengths 1–64 (integers), 64 (floats), whole bytes (byte fields), bit
+    `A_UINT32`, `A_FLOAT64`, `A_BYTEFIELD` or `A_ASCIISTRING` (ISO-8859-1) standard-length DOPs with the identical compu method — *any* encodings
+    (2C/1C/SM for signed), bit lengths 1–64 (integers), 64 (floats), whole bytes (byte fields, strings), bit
     positions, byte orders, explicit BYTE-POSITIONs in any order or none — and every assignment of
     representable values (`values` may list them in any order; no unknown names): if the encoder returns a PDU
     without an overlap warning, decoding that PDU yields exactly the assigned values, parameter by parameter.
@@ -61,30 +61,31 @@ theorem C01_roundtrip_flat (ovs : List (Obj × IVal)) (hlen : ovs.length ≤ 400
       .ok (.dict (ovs.map fun ov => (ov.1.name, PVal.atom ov.2)), cursor) :=
   flat_roundtrip ovs hlen values trig hok hlook hknown pdu henc
 
-/-! non-vacuity of `C01_roundtrip_flat`: seven parameters, the second explicitly positioned *behind* the third,
+/-! non-vacuity of `C01_roundtrip_flat`: eight parameters, the second explicitly positioned *behind* the third,
     sub-byte objects sharing a byte, low-high byte order, an unsigned object, values given in a different order -/
 def exObjs : List (Obj × IVal) :=
   [(⟨"a", none, some 4, none, true, 4, .int32⟩, .int (-3)), (⟨"b", some 3, none, some .sm, false, 16, .int32⟩, .int (-300)),
    (⟨"c", some 0, some 0, some .onec, true, 4, .int32⟩, .int 5), (⟨"d", some 1, none, none, false, 12, .int32⟩, .int 1000),
    (⟨"u", some 5, some 1, none, false, 10, .uint32⟩, .int 1023),
    (⟨"f", none, none, none, false, 64, .float64⟩, .flt 0x3ff8000000000000),          -- 1.5, low-high byte order
-   (⟨"raw", none, none, none, true, 24, .bytes⟩, .bytes [0xde, 0xad, 0x00])]
+   (⟨"raw", none, none, none, true, 24, .bytes⟩, .bytes [0xde, 0xad, 0x00]),
+   (⟨"vin", none, none, some .iso1, true, 16, .ascii⟩, .str [0x57, 0xe9])]                    -- "Wé"
 def exValues : List (String × PVal) :=
   [("d", .atom (.int 1000)), ("u", .atom (.int 1023)), ("a", .atom (.int (-3))), ("c", .atom (.int 5)), ("b", .atom (.int (-300))),
-   ("raw", .atom (.bytes [0xde, 0xad, 0x00])), ("f", .atom (.flt 0x3ff8000000000000))]
+   ("raw", .atom (.bytes [0xde, 0xad, 0x00])), ("f", .atom (.flt 0x3ff8000000000000)), ("vin", .atom (.str [0x57, 0xe9]))]
 example : (encodeMessage none (exObjs.map fun ov => ov.1.toParam) (.dict exValues) none true).toOption
-    = some ([0xd5, 0xe8, 0x03, 0x2c, 0x81, 0xfe, 0x07, 0, 0, 0, 0, 0, 0, 0xf8, 0x3f, 0xde, 0xad, 0x00], 0) := by decide +kernel
+    = some ([0xd5, 0xe8, 0x03, 0x2c, 0x81, 0xfe, 0x07, 0, 0, 0, 0, 0, 0, 0xf8, 0x3f, 0xde, 0xad, 0x00, 0x57, 0xe9], 0) := by decide +kernel
 example : ∀ ov ∈ exObjs, ov.1.ok ∧ ov.1.inRange ov.2 := by
   intro ov h
   simp only [exObjs, List.mem_cons, List.mem_nil_iff, or_false] at h
-  rcases h with rfl | rfl | rfl | rfl | rfl | rfl | rfl <;>
+  rcases h with rfl | rfl | rfl | rfl | rfl | rfl | rfl | rfl <;>
     simp [Obj.ok, Obj.encOk, Obj.sizeOk, Obj.inRange, int32Known, int32InRange, AllBytes]
 example : ∀ ov ∈ exObjs, lookup ov.1.name exValues = some (.atom ov.2) := by
   intro ov h
   simp only [exObjs, List.mem_cons, List.mem_nil_iff, or_false] at h
-  rcases h with rfl | rfl | rfl | rfl | rfl | rfl | rfl <;> simp [lookup, exValues]
+  rcases h with rfl | rfl | rfl | rfl | rfl | rfl | rfl | rfl <;> simp [lookup, exValues]
 
-/-- **C01, nested-structure tier.** Requests/responses/structures built from `A_INT32` / `A_UINT32` / `A_FLOAT64` / `A_BYTEFIELD` VALUE parameters,
+/-- **C01, nested-structure tier.** Requests/responses/structures built from `A_INT32` / `A_UINT32` / `A_FLOAT64` / `A_BYTEFIELD` / `A_ASCIISTRING` VALUE parameters,
     CODED-CONST parameters over the same diag-coded types (service and data identifiers) and
     arbitrarily deeply nested STRUCTURE-valued parameters, each positioned explicitly (BYTE-POSITION relative to
     the enclosing structure's first byte) or implicitly (behind its predecessor); sibling short names distinct.
